@@ -3,6 +3,7 @@ package main
 import (
 	"fmt"
 	"math"
+	"strings"
 
 	"gonum.org/v1/gonum/mat"
 )
@@ -369,6 +370,9 @@ func toDenseTemplates() []*tmpl {
 			},
 			verify: func(c *refCtx, res func(i, j int) float64) string {
 				trans, cond := sv.decode(c.fv)
+				if cond == condIll && (sv.name == "Tridiag" || strings.HasPrefix(sv.name, "TriBandDense")) {
+					return "" // these two have no condition estimate: only exact singularity is an error
+				}
 				if cond != condWell {
 					// verify only runs when the call returned no error: the
 					// ill-conditioned / singular system failed to reach the
@@ -450,6 +454,9 @@ func toVecTemplates() []*tmpl {
 			},
 			verify: func(c *refCtx, res func(i, j int) float64) string {
 				trans, cond := sv.decode(c.fv)
+				if cond == condIll && (sv.name == "Tridiag" || strings.HasPrefix(sv.name, "TriBandDense")) {
+					return "" // these two have no condition estimate: only exact singularity is an error
+				}
 				if cond != condWell {
 					// verify only runs when the call returned no error: the
 					// ill-conditioned / singular system failed to reach the
